@@ -616,6 +616,7 @@ func runC14(c *fw.Ctx) {
 	}
 	c.Cases("pinned", len(pins), true, func(i int, r *rng.R) { c14Case(c, r, pins[i]) })
 	c.Cases("mutating-callbacks", c.N(400, 100000), false, func(i int, r *rng.R) { c14Mutating(c, r) })
+	c.Cases("panicking-callbacks", c.N(400, 100000), false, func(i int, r *rng.R) { c14Panicking(c, r) })
 	c.Cases("containers", c.N(2000, 1000000), false, func(i int, r *rng.R) {
 		// several elements of each kind interleaved, none of a kind, neighbours of look-alike kinds, empty
 		root := spec.List
@@ -880,6 +881,85 @@ func c14Mutating(c *fw.Ctx, r *rng.R) {
 		}
 		if !ok {
 			c.Violate("view-wrong:mutating-callback", inR(), "the ints that were there from the start visited once each, in order", fmt.Sprint(seen))
+		}
+	})
+}
+
+// c14Panicking: the callback panics on one of the selected elements (with a string, an error, a genuine runtime type
+// assertion error, an index-out-of-range runtime error, a struct). Either the panic reaches the caller, or - if the call
+// returns normally all the same - what it returns must still cover every element of the kind; a result that silently
+// lacks the element whose callback panicked satisfies neither.
+func c14Panicking(c *fw.Ctx, r *rng.R) {
+	n := r.Range(2, 7)
+	at0 := r.Intn(n)
+	kindOfPanic := r.Intn(5)
+	view := r.Intn(8)
+	names := []string{"List.MapInts", "List.FilterInts", "List.MapStrings", "List.FilterStrings", "List.Map", "List.Filter", "Object.MapInts", "Object.Map"}
+	in := func() string {
+		return fmt.Sprintf("%s over %d selected elements; the callback panics (kind %d) on its call number %d", names[view], n, kindOfPanic, at0+1)
+	}
+	boom := func() {
+		switch kindOfPanic {
+		case 0:
+			panic("callback failed")
+		case 1:
+			panic(fmt.Errorf("callback failed"))
+		case 2:
+			var x any = "not an int"
+			_ = x.(int) // a genuine *runtime.TypeAssertionError
+		case 3:
+			var s []int
+			_ = s[len(s)+n] // runtime error: index out of range
+		default:
+			panic(struct{ code int }{7})
+		}
+	}
+	guard(c, in, func() {
+		c.Distinct(in())
+		c.Count("panicking_callback_cases")
+		l := at.NewList()
+		o := at.NewObject()
+		for i := 0; i < n; i++ {
+			l.Add(i, fmt.Sprintf("s%d", i), 1.5)
+			o.Set(fmt.Sprintf("i%d", i), i, fmt.Sprintf("s%d", i), "x")
+		}
+		calls := 0
+		hit := func() {
+			calls++
+			if calls == at0+1 {
+				boom()
+			}
+		}
+		got, want := -1, n
+		pan, _ := drive.Protect(func() {
+			switch view {
+			case 0:
+				got = l.MapInts(func(v int) any { hit(); return v }).Count()
+			case 1:
+				got = l.FilterInts(func(v int) bool { hit(); return true }).Count()
+			case 2:
+				got = l.MapStrings(func(v string) any { hit(); return v }).Count()
+			case 3:
+				got = l.FilterStrings(func(v string) bool { hit(); return true }).Count()
+			case 4:
+				want = 3 * n
+				got = l.Map(func(i int, v any) any { hit(); return v }).Count()
+			case 5:
+				want = 3 * n
+				got = l.Filter(func(v any) bool { hit(); return true }).Count()
+			case 6:
+				got = o.MapInts(func(v int) any { hit(); return v }).Count()
+			default:
+				want = 2 * n
+				got = o.Map(func(k string, v any) any { hit(); return v }).Count()
+			}
+		})
+		if pan {
+			c.Count("callback_panics_that_reached_the_caller")
+			return
+		}
+		if got != want {
+			c.Violate("view-wrong:callback-panic-swallowed", in(), fmt.Sprintf("the panic reaches the caller, or the returned result covers all %d selected elements", want), fmt.Sprintf("the call returned normally with %d entries", got))
 		}
 	})
 }
